@@ -400,6 +400,10 @@ func (n *ReconcileNode) syncWithAPI(ctx context.Context, node *networkv1beta1.No
 	// del eni (those eni is not attached on ecs)
 	for id := range node.Status.NetworkInterfaces {
 		if _, ok := eniIDMap[id]; !ok {
+			if node.Status.NetworkInterfaces[id].Status == aliyunClient.ENIStatusDeleting {
+				// deletion is in progress (detached, not yet deleted): keep the record, handleStatus finishes the job
+				continue
+			}
 			// as the eni is not attached, so just delete it
 			if node.Status.NetworkInterfaces[id].NetworkInterfaceType == networkv1beta1.ENITypeSecondary {
 				var remote []*aliyunClient.NetworkInterface
